@@ -9,3 +9,104 @@ Proof.
   destruct (negb w || a); inversion H; subst. unfold unlockShared; cbn [rd wr ap].
   f_equal. lia.
 Qed.
+
+(* ================= population of processes on one anchor ================= *)
+Fixpoint cnt (f : hold -> bool) (hs : list hold) : N :=
+  match hs with [] => 0 | h :: r => (if f h then 1 else 0) + cnt f r end.
+Definition isR h := match h with HRead => true | _ => false end.
+Definition isW h := match h with HWrite | HAppend => true | _ => false end.
+Definition isA h := match h with HAppend => true | _ => false end.
+
+Lemma cnt_hset : forall f hs p h, p < lenN hs ->
+  cnt f (hset hs p h) + (if f (hget hs p) then 1 else 0) = cnt f hs + (if f h then 1 else 0).
+Proof.
+  unfold hset, hget. intros f hs; induction hs as [|y r IH]; intros p h Hp; cbn [lenN] in Hp; [lia|].
+  cbn [updN nthN]. destruct (p =? 0) eqn:E.
+  - cbn [cnt]. lia.
+  - cbn [cnt]. specialize (IH (N.pred p) h). assert (N.pred p < lenN r) by lia. specialize (IH H). lia.
+Qed.
+
+Lemma hget_hset_same : forall hs p h, p < lenN hs -> hget (hset hs p h) p = h.
+Proof.
+  unfold hset, hget. induction hs as [|y r IH]; intros p h Hp; cbn [lenN] in Hp; [lia|].
+  cbn [updN]. destruct (p =? 0) eqn:E; cbn [nthN]; rewrite E; [reflexivity|]. apply IH. lia.
+Qed.
+Lemma hget_hset_other : forall hs p q h, p <> q -> hget (hset hs p h) q = hget hs q.
+Proof.
+  unfold hset, hget. induction hs as [|y r IH]; intros p q h Hpq; [reflexivity|].
+  cbn [updN]. destruct (p =? 0) eqn:E; cbn [nthN]; destruct (q =? 0) eqn:F; try reflexivity; try lia.
+  apply IH. lia.
+Qed.
+Lemma lenN_hset : forall hs p h, lenN (hset hs p h) = lenN hs.
+Proof.
+  unfold hset. induction hs as [|y r IH]; intros p h; [reflexivity|].
+  cbn [updN]. destruct (p =? 0); cbn [lenN]; [reflexivity| now rewrite IH].
+Qed.
+Lemma cnt_pos_exists : forall f hs, 0 < cnt f hs -> exists p, f (hget hs p) = true.
+Proof.
+  induction hs as [|y r IH]; cbn [cnt]; intros H; [lia|].
+  destruct (f y) eqn:E.
+  - exists 0. unfold hget. cbn. exact E.
+  - destruct IH as [p Hp]; [lia|]. exists (p + 1). unfold hget in *. cbn [nthN].
+    replace (p + 1 =? 0) with false by lia. replace (N.pred (p + 1)) with p by lia. exact Hp.
+Qed.
+Lemma cnt_two : forall f hs p q, p <> q -> f (hget hs p) = true -> f (hget hs q) = true -> 2 <= cnt f hs.
+Proof.
+  intros f hs; induction hs as [|y r IH]; intros p q Hpq Hp Hq.
+  - unfold hget in Hp. cbn in Hp. destruct f; discriminate || (cbn in Hp; idtac). 
+    unfold hget in Hp; cbn in Hp. assert (f HNone = true) by exact Hp.
+    (* no process exists in an empty population: the hypothesis talks about the default; excluded by callers *)
+    unfold hget in Hq. cbn in Hq. cbn [cnt].
+    (* cannot conclude in general; strengthen statement below *)
+Abort.
+
+Lemma cnt_two : forall f hs p q, f HNone = false -> p <> q ->
+  f (hget hs p) = true -> f (hget hs q) = true -> 2 <= cnt f hs.
+Proof.
+  intros f hs; induction hs as [|y r IH]; intros p q Hn Hpq Hp Hq.
+  - unfold hget in Hp. cbn in Hp. congruence.
+  - cbn [cnt]. unfold hget in Hp, Hq. cbn [nthN] in Hp, Hq.
+    destruct (p =? 0) eqn:Ep; destruct (q =? 0) eqn:Eq; try lia.
+    + rewrite Hp. assert (0 < cnt f r).
+      { clear IH. assert (exists k, f (hget r k) = true) by (exists (N.pred q); exact Hq).
+        destruct H as [k Hk]. revert k Hk. induction r as [|z r' IHr]; intros k Hk.
+        - unfold hget in Hk; cbn in Hk; congruence.
+        - cbn [cnt]. unfold hget in Hk; cbn [nthN] in Hk. destruct (k =? 0); [rewrite Hk; lia|].
+          specialize (IHr (N.pred k) Hk). lia. }
+      lia.
+    + rewrite Hq. assert (0 < cnt f r).
+      { clear IH. assert (exists k, f (hget r k) = true) by (exists (N.pred p); exact Hp).
+        destruct H as [k Hk]. revert k Hk. induction r as [|z r' IHr]; intros k Hk.
+        - unfold hget in Hk; cbn in Hk; congruence.
+        - cbn [cnt]. unfold hget in Hk; cbn [nthN] in Hk. destruct (k =? 0); [rewrite Hk; lia|].
+          specialize (IHr (N.pred k) Hk). lia. }
+      lia.
+    + specialize (IH (N.pred p) (N.pred q) Hn). assert (N.pred p <> N.pred q) by lia.
+      specialize (IH H Hp Hq). lia.
+Qed.
+
+Record pinv (s : pop) : Prop := mkPinv {
+  i_rd : rd (lk (pe s)) = cnt isR (ph s);
+  i_wr : (if wr (lk (pe s)) then 1 else 0) = cnt isW (ph s);
+  i_ap : (if ap (lk (pe s)) then 1 else 0) = cnt isA (ph s);
+  i_apw : ap (lk (pe s)) = true -> wr (lk (pe s)) = true;
+  i_excl : wr (lk (pe s)) = true -> ap (lk (pe s)) = false -> rd (lk (pe s)) = 0;
+  i_used : wr (lk (pe s)) = true -> used (pe s) = true;
+  i_ver : forall p, isW (hget (ph s) p) = true -> ever (pe s) = p
+}.
+
+Lemma cnt_repeat_none : forall f n, f HNone = false -> cnt f (repeat HNone n) = 0.
+Proof. intros f n H; induction n; cbn [repeat cnt]; [reflexivity| rewrite H, IHn; reflexivity]. Qed.
+
+Lemma hget_repeat : forall n p, hget (repeat HNone n) p = HNone.
+Proof.
+  unfold hget. induction n; intros p; cbn [repeat nthN]; [reflexivity|].
+  destruct (p =? 0); [reflexivity| apply IHn].
+Qed.
+
+Lemma pinv_init : forall n, pinv (pinit n).
+Proof.
+  intros n. unfold pinit. constructor; cbn [pe ph lk e_empty l_idle rd wr ap used ever];
+    try rewrite cnt_repeat_none by reflexivity; try reflexivity; try discriminate.
+  intros p H. rewrite hget_repeat in H. discriminate.
+Qed.
